@@ -1,10 +1,42 @@
 (* C13 — Shared store is linearizable and data-race free.
    Only property theorems here; each closed by `exact` of a lemma from Proofs/. *)
-From Flyt Require Import Store Lin LinCorr LinProofs.
+From Flyt Require Import Store Lin LinCorr LinProofs StoreConc StoreConcProofs.
+
+(* the lock-disciplined store (every accessor holds mu, read or write, for its whole body; Merge
+   writes key by key, Keys and GetAll read entry by entry): for any number of threads running
+   any operation lists under any schedule, the timestamped history is linearizable with respect
+   to an ordinary map — a legal sequential execution of a permutation of the operations that keeps
+   the real-time order *)
+Theorem C13_linearizable :
+  forall progs sched, Linearizable (hist_of (s_hist (srun true (sinit progs) sched))).
+Proof. exact linearizable_classic_lemma. Qed.
+Print Assumptions C13_linearizable.
+
+(* the linearization is the order of the responses: the completed operations in that order are
+   a legal sequential execution (so a Merge or a Clear is never seen half done) *)
+Theorem C13_response_order_legal :
+  forall progs sched, legal_seq [] (s_done (srun true (sinit progs) sched)) = true.
+Proof. exact linearizable_lemma. Qed.
+Print Assumptions C13_response_order_legal.
+
+(* no data race: two threads are never inside their bodies together when one of them writes *)
+Theorem C13_race_free :
+  forall progs sched, ~ racy (srun true (sinit progs) sched).
+Proof. exact race_free_lemma. Qed.
+Print Assumptions C13_race_free.
+
+(* mechanism sensitivity: the same system with the lock not taken is neither *)
+Theorem C13_unlocked_not_linearizable :
+  legal_seq [] (s_done (srun false (sinit demo_progs) demo_sched)) = false.
+Proof. exact unlocked_not_linearizable. Qed.
+Print Assumptions C13_unlocked_not_linearizable.
+Theorem C13_unlocked_racy :
+  racy (srun false (sinit demo_progs) [0; 0; 0; 1; 1]).
+Proof. exact unlocked_racy. Qed.
+Print Assumptions C13_unlocked_racy.
 
 (* the witness checker applied to the implementation's histories is sound: an accepted witness
-   proves the history linearizable with respect to an ordinary map (legal sequential execution
-   of a permutation of the operations that keeps the real-time order) *)
+   proves the history linearizable in the same sense *)
 Theorem C13_check_witness_sound :
   forall H w, check_witness H w = true -> Linearizable H.
 Proof. exact check_witness_sound_lemma. Qed.
